@@ -362,3 +362,27 @@ Proof.
   assert (Hn : nth_error (encode cs) (length (encode cs)) = None) by (apply nth_error_None; lia).
   rewrite Hn, Nat.eqb_refl. apply orb_true_r.
 Qed.
+
+(* all operations at once, from one good cursor *)
+Lemma matchers_good : forall I c, good_inp I -> good_cur I c ->
+  (exists rs, valid_str rs /\ i_get I c = MOk (encode rs)) /\
+  (forall t, valid_utf8 t -> ret_good I c (i_match_string I t c)) /\
+  (forall t, ret_good I c (i_match_insens I t c)) /\
+  (forall n, ret_good I c (i_skip I n c)) /\
+  (forall f, exists o, i_match_char I f c = MOk o /\
+     forall c' ch, o = Some (c', ch) -> c < c' /\ good_cur I c' /\ c' = c + len_utf8 ch) /\
+  (forall ss, c <= snd (i_skip_until I true ss c) /\ good_cur I (snd (i_skip_until I true ss c))) /\
+  (forall y, good_cur I y -> c <= y ->
+     i_span I c y = MOk (c, y) /\ exists txt, span_str I (c, y) = MOk txt /\ valid_utf8 txt).
+Proof.
+  intros I c HI Hc. repeat apply conj.
+  - apply get_good; assumption.
+  - intros t Ht. apply match_string_good; assumption.
+  - intros t. apply match_insens_good; assumption.
+  - intros n. apply skip_good; assumption.
+  - intros f. destruct (match_char_good I f c HI Hc) as (o & Ho & H). exists o. split; [exact Ho|].
+    intros c' ch Hs. destruct (H c' ch Hs) as (H1 & H2 & H3 & _). tauto.
+  - intros ss. apply skip_until_good; assumption.
+  - intros y Hy Hle. split; [apply i_span_good; assumption|].
+    apply span_str_good; [exact HI|]. unfold good_span. cbn [fst snd]. tauto.
+Qed.
